@@ -16,6 +16,8 @@ EXPRS = {
     "t or u": ("or", L("t"), L("u")), "not (t or u)": ("not", ("or", L("t"), L("u"))),
     "t and not u": ("and", L("t"), ("not", L("u"))), "t*": L("t*"),
     "-t": ("not", L("t")), "~t": ("not", L("t")), "t,u": ("or", L("t"), L("u")), "@t": L("t"),
+    # every spelling of an old-style negation: prefix {-, ~} x optional @ (one representative per rewriting)
+    "-@t": ("not", L("t")), "~@t": ("not", L("t")), "@t,~@u": ("or", L("t"), ("not", L("u"))),
     "not u": ("not", L("u")),
     # a tag whose text contains '<' and '>' (legal tag text, looks like an outline placeholder)
     "r<1>": L("r<1>"), "not r<1>": ("not", L("r<1>")),
